@@ -172,6 +172,108 @@ func TestVerifMetaDaemon(t *testing.T) {
 		VerifSetHook(r.URL.Query().Get("point"), nil)
 		io.WriteString(w, "ok")
 	})
+	// grab / directchan: a request handler that looked its topic up just before a persist took the nsqd lock and
+	// creates a channel in it while that persist is running (Topic.GetChannel needs the topic lock only)
+	var grabbed *Topic
+	mux.HandleFunc("/grab", func(w http.ResponseWriter, r *http.Request) {
+		tp, err := n.GetExistingTopic(r.URL.Query().Get("topic"))
+		if err != nil {
+			http.Error(w, "no such topic", 404)
+			return
+		}
+		grabbed = tp
+		io.WriteString(w, "ok")
+	})
+	mux.HandleFunc("/directchan", func(w http.ResponseWriter, r *http.Request) {
+		if grabbed == nil {
+			http.Error(w, "no topic grabbed", 404)
+			return
+		}
+		grabbed.GetChannel(r.URL.Query().Get("channel"))
+		io.WriteString(w, "ok")
+	})
+	// lockhold / lockrelease: hold the nsqd write lock for a moment. A creation notified meanwhile has both its Notify
+	// goroutine (n.Lock) and lookupLoop (n.RLock, looking the notified name up) queued behind it; on release the reader
+	// goes first (sync.RWMutex), so lookupLoop is done with that notification before the notifier's persist starts
+	var lockCh chan struct{}
+	var lockHeld int32
+	mux.HandleFunc("/lockhold", func(w http.ResponseWriter, r *http.Request) {
+		ch := make(chan struct{})
+		lockCh = ch
+		go func() {
+			n.Lock()
+			atomic.StoreInt32(&lockHeld, 1)
+			<-ch
+			atomic.StoreInt32(&lockHeld, 0)
+			n.Unlock()
+		}()
+		for i := 0; i < 1000 && atomic.LoadInt32(&lockHeld) == 0; i++ {
+			time.Sleep(2 * time.Millisecond)
+		}
+		io.WriteString(w, "ok")
+	})
+	mux.HandleFunc("/lockrelease", func(w http.ResponseWriter, r *http.Request) {
+		// first wait until the notifier and lookupLoop are both queued on the lock
+		for i := 0; i < 1000; i++ {
+			buf := make([]byte, 1<<20)
+			k := runtime.Stack(buf, true)
+			st := string(buf[:k])
+			notifier, loop := false, false
+			for _, g := range strings.Split(st, "\n\n") {
+				if strings.Contains(g, "(*NSQD).Notify.func1") && strings.Contains(g, "RWMutex).Lock") {
+					notifier = true
+				}
+				if strings.Contains(g, "(*NSQD).lookupLoop") && strings.Contains(g, "RWMutex).RLock") {
+					loop = true
+				}
+			}
+			if notifier && loop {
+				break
+			}
+			time.Sleep(2 * time.Millisecond)
+		}
+		if lockCh != nil {
+			close(lockCh)
+			lockCh = nil
+		}
+		io.WriteString(w, "ok")
+	})
+	// notifysettled: every Notify goroutine other than the parked one has either finished or is waiting for the
+	// nsqd lock (i.e. the creation made inside the window has been handed to lookupLoop and decided about persisting)
+	mux.HandleFunc("/notifysettled", func(w http.ResponseWriter, r *http.Request) {
+		for i := 0; i < 600; i++ {
+			buf := make([]byte, 1<<20)
+			k := runtime.Stack(buf, true)
+			undecided := 0
+			loopBlocked := false
+			for _, g := range strings.Split(string(buf[:k]), "\n\n") {
+				if strings.Contains(g, "(*NSQD).lookupLoop") && strings.Contains(g, "RWMutex).RLock") {
+					loopBlocked = true
+				}
+				if strings.Contains(g, "(*NSQD).Notify.func1") && !strings.Contains(g, "verifPoint") &&
+					!strings.Contains(g, "RWMutex).Lock") {
+					undecided++
+				}
+			}
+			if undecided == 0 {
+				io.WriteString(w, "1")
+				return
+			}
+			if loopBlocked { // a notifier cannot hand its object over before the release
+				io.WriteString(w, "lookuploop-blocked")
+				return
+			}
+			time.Sleep(5 * time.Millisecond)
+		}
+		io.WriteString(w, "0")
+	})
+	mux.HandleFunc("/exit", func(w http.ResponseWriter, r *http.Request) {
+		go func() {
+			n.Exit() // graceful shutdown (what SIGTERM does in apps/nsqd); may be parked at a verif point
+			os.Exit(0)
+		}()
+		io.WriteString(w, "ok")
+	})
 	mux.HandleFunc("/force", func(w http.ResponseWriter, r *http.Request) {
 		vfMetaForce(r.URL.Query().Get("point"))
 		io.WriteString(w, "ok")
@@ -210,6 +312,8 @@ type vfMetaRun struct {
 	ctl     string // control dir
 	p       *vfMetaProc
 	lastStarted *vfMetaProc
+	exitPoint   string
+	lastWindow  string
 	dead    bool
 	out     *vfMetaLines
 	cli     *http.Client
@@ -433,6 +537,7 @@ func (r *vfMetaRun) exec(line string) {
 		}
 		r.p = r.lastStarted
 		r.dead = false
+		r.exitPoint = ""
 		st, _ := r.get(r.p.ctl, "/state")
 		r.out.Case("restart "+st, "ok")
 	case "second":
@@ -445,9 +550,27 @@ func (r *vfMetaRun) exec(line string) {
 			r.lastStarted.cmd.Process.Signal(syscall.SIGKILL)
 			<-r.lastStarted.done
 			r.out.Case("second", "started")
-			r.fail("second-instance", "a second nsqd started on a data path that is in use")
+			what := "a second nsqd started on a data path that is in use"
+			if r.exitPoint != "" {
+				what += " (the first nsqd is inside Exit(), parked at " + r.exitPoint + ": it has not finished writing nsqd.dat / flushing its queues)"
+			}
+			r.fail("second-instance", what)
 		} else if strings.Contains(res, "lock") {
-			r.out.Case("second", "refused")
+			// and in this process: New() on the same data path must fail on the flock as well
+			o := NewOptions()
+			o.Logger = log.New(io.Discard, "", 0)
+			o.DataPath = r.dir
+			o.TCPAddress = "127.0.0.1:0"
+			o.HTTPAddress = "127.0.0.1:0"
+			if n2, err := New(o); err == nil {
+				n2.tcpListener.Close()
+				n2.httpListener.Close()
+				n2.dl.Unlock()
+				r.out.Case("second", "started")
+				r.fail("second-instance", "New() succeeded on a data path that is in use (during: "+r.exitPoint+")")
+			} else {
+				r.out.Case("second", "refused")
+			}
 		} else {
 			r.out.Case("second", res)
 		}
@@ -472,10 +595,17 @@ func (r *vfMetaRun) exec(line string) {
 		if dat != mem {
 			// classify: a listed object that is not live (deletion not persisted) or the converse
 			key := "idle-file-differs"
+			if vfMetaHasExtra(mem, dat) && !vfMetaHasExtra(dat, mem) {
+				key = "created-object-not-persisted"
+			}
 			if vfMetaHasExtra(dat, mem) {
 				key = "deleted-object-still-listed"
 			}
-			r.fail(key, fmt.Sprintf("daemon idle but nsqd.dat=%s while live state=%s", dat, mem))
+			what := fmt.Sprintf("daemon idle but nsqd.dat=%s while live state=%s", dat, mem)
+			if r.lastWindow != "" {
+				what += " (after: `" + r.lastWindow + "` - the second creation was made while the persist of the first was parked at meta.persist.afterSnapshot)"
+			}
+			r.fail(key, what)
 		}
 	case "arm":
 		if r.dead {
@@ -495,6 +625,41 @@ func (r *vfMetaRun) exec(line string) {
 			r.out.Case("kill", "ok")
 		}
 		r.dead = true
+	case "window": // window <create A> // <create B>: B happens while the persist triggered by A is parked after its snapshot
+		if r.dead {
+			return
+		}
+		r.window(strings.Join(w[1:], " "))
+	case "exitpark": // graceful Exit of the daemon, parked at a verif point inside Exit
+		if r.dead {
+			return
+		}
+		r.get(r.p.ctl, "/hold?point="+w[1])
+		r.get(r.p.ctl, "/exit")
+		res := "not-parked"
+		for i := 0; i < 600; i++ {
+			if p, err := r.get(r.p.ctl, "/parked"); err == nil && p == "1" {
+				res = "parked"
+				break
+			}
+			time.Sleep(5 * time.Millisecond)
+		}
+		r.exitPoint = w[1]
+		r.out.Case(line, res)
+	case "exitrelease":
+		if r.dead {
+			return
+		}
+		r.get(r.p.ctl, "/release?point="+r.exitPoint)
+		res := "exited"
+		select {
+		case <-r.p.done:
+		case <-time.After(15 * time.Second):
+			res = "exit-timeout"
+			r.kill()
+		}
+		r.dead = true
+		r.out.Case(line, res)
 	case "race": // race <op A...> // <op B...> : A is parked right after its snapshot, B runs, A is released
 		if r.dead {
 			return
@@ -632,6 +797,48 @@ func (r *vfMetaRun) race(spec string) {
 			}
 		}
 		r.out.Case(line, ans)
+	}
+}
+
+// window: creation A's Notify persist is parked at `meta.persist.afterSnapshot` (document taken without B), creation B
+// is made, then the persist is released. B's own Notify persist must still run (it queues behind the nsqd lock), so
+// that once the daemon is idle nsqd.dat lists B (checked by the `idle` line that follows).
+func (r *vfMetaRun) window(spec string) {
+	parts := strings.Split(spec, " // ")
+	a, b := strings.Fields(parts[0]), strings.Fields(parts[1]) // both: createchan T C, made through the grabbed topic T
+	const pt = "meta.persist.afterSnapshot"
+	r.lastWindow = spec
+	if g, err := r.get(r.p.ctl, "/grab?topic="+b[1]); err != nil || g != "ok" || a[1] != b[1] {
+		r.out.Case(strings.Join(a, " "), "window-setup-failed")
+		return
+	}
+	r.get(r.p.ctl, "/hold?point="+pt)
+	r.get(r.p.ctl, "/lockhold")
+	resA, ea := r.get(r.p.ctl, "/directchan?channel="+url.QueryEscape(a[2]))
+	r.get(r.p.ctl, "/lockrelease") // lookupLoop finishes A's notification first, then A's persist takes the lock
+	parked := false
+	for i := 0; i < 1500 && !parked; i++ {
+		if p, _ := r.get(r.p.ctl, "/parked"); p == "1" {
+			parked = true
+		} else {
+			time.Sleep(5 * time.Millisecond)
+		}
+	}
+	resB, eb := r.get(r.p.ctl, "/directchan?channel="+url.QueryEscape(b[2]))
+	// wait until B's Notify goroutine has reached the nsqd lock (or has decided not to persist)
+	settled, _ := r.get(r.p.ctl, "/notifysettled")
+	r.get(r.p.ctl, "/release?point="+pt)
+	r.stats["window:parked="+strconv.FormatBool(parked)+",settled="+settled]++
+	for _, x := range []struct {
+		w   []string
+		res string
+		err error
+	}{{a, resA, ea}, {b, resB, eb}} {
+		if x.err != nil || x.res != "ok" {
+			r.out.Case(strings.Join(x.w, " "), "direct-error")
+		} else {
+			r.out.Case(strings.Join(x.w, " "), "200")
+		}
 	}
 }
 
@@ -791,6 +998,24 @@ func vfMetaScript(rng *vfRand, kind int, idx int) []string {
 		} else {
 			s = append(s, "force topic.delete.afterNotify", "deletetopic t2", "idle", "kill", "restart", "idle")
 		}
+	case 7: // a creation made while another creation's persist is parked between its snapshot and its write
+		s = append(s, "createtopic t1", "idle")
+		ws := []string{
+			"window createchan t1 w1 // createchan t1 w2",
+			"window createchan t1 w3 // createchan t1 w4",
+			"window createchan t1 w5 // createchan t1 wx#ephemeral",
+			"window createchan t1 w6 // createchan t1 w7",
+		}
+		for i := 0; i < 2; i++ {
+			s = append(s, ws[(idx+i)%len(ws)], "idle")
+		}
+		s = append(s, "kill", "restart", "idle")
+	case 6: // a second instance while the first one is inside Exit() (listeners closed, still writing)
+		pt := []string{"meta.persist.afterSnapshot", "topic.exit.beforeFlush"}[idx%2]
+		s = append(s, "createtopic t1", "createchan t1 c0", "idle", "second", "exitpark "+pt, "second", "exitrelease",
+			"restart", "idle", "second")
+		s = append(s, sh.churn(rng, 2)...)
+		s = append(s, "idle")
 	case 5: // SIGKILL inside the persists of a deletion: the Notify one (k = 1 or 2) and the post-unlink one (F6 path)
 		pt := vfMetaPoints[idx%5] // the five meta.persist.* points
 		k := 1 + (idx/5)%2
@@ -863,7 +1088,7 @@ func TestVerifMetaCorr(t *testing.T) {
 		k0 := int(rng.Next() % 9)
 		k5 := int(rng.Next() % 20)
 		for i := 0; i < n; i++ {
-			kind := []int{0, 0, 5, 1, 1, 2, 3, 4}[i%8]
+			kind := []int{0, 6, 5, 1, 7, 2, 3, 4}[i%8]
 			if os.Getenv("VERIF_META_KIND") != "" {
 				kind = vfEnvInt("VERIF_META_KIND", 0)
 			}
@@ -879,6 +1104,9 @@ func TestVerifMetaCorr(t *testing.T) {
 				idx = k5
 				k5++
 			}
+			if kind == 6 || kind == 7 {
+				idx = i / 8
+			}
 			scripts = append(scripts, vfMetaScript(rng, kind, idx))
 		}
 	}
@@ -886,7 +1114,7 @@ func TestVerifMetaCorr(t *testing.T) {
 	if err != nil {
 		t.Fatal(err)
 	}
-	defer os.RemoveAll(base)
+	defer func() { if os.Getenv("VERIF_KEEP") == "" { os.RemoveAll(base) } }()
 	runs := make([]*vfMetaRun, len(scripts))
 	var wg sync.WaitGroup
 	sem := make(chan struct{}, vfEnvInt("VERIF_PAR", 6))
